@@ -172,6 +172,36 @@ fn histories(prop: &str, thorough: bool, seed: u64, rep: &mut Report) {
             if a.cmp(b) != std::cmp::Ordering::Greater && b.cmp(c) != std::cmp::Ordering::Greater && a.cmp(c) == std::cmp::Ordering::Greater { rep.violation("Ord transitive", "order-trans", "triple".into(), "".into()); }
         } } }
     }
+    if prop == "C14" {
+        // values: every pair / triple of a family with near-copies (one leaf, one key, one position
+        // changed) and numbers of equal value but different spelling (content = spelling)
+        rep.checks.push("C14: Value order is total and consistent with equality; equal values hash alike (all pairs, triples)".into());
+        let mut leaves: Vec<RefValue> = vec![RefValue::Null, RefValue::Bool(false), RefValue::Bool(true), RefValue::Str("".into()), RefValue::Str("a".into()), RefValue::Str("b".into())];
+        for n in ["0", "-0", "1", "1.0", "10e-1", "100", "1e2", "2", "-1", "1.5", "15e-1"] { leaves.push(RefValue::Num(n.into())); }
+        let mut vals = leaves.clone();
+        for a in &leaves { vals.push(RefValue::Arr(vec![a.clone()])); vals.push(RefValue::Obj(vec![("k".into(), a.clone())])); }
+        for a in leaves.iter().step_by(2) { for b in leaves.iter().step_by(3) {
+            vals.push(RefValue::Arr(vec![a.clone(), b.clone()]));
+            vals.push(RefValue::Obj(vec![("a".into(), a.clone()), ("b".into(), b.clone())]));
+            vals.push(RefValue::Obj(vec![("b".into(), b.clone()), ("a".into(), a.clone())]));
+            vals.push(RefValue::Arr(vec![RefValue::Bool(true), RefValue::Obj(vec![("a".into(), RefValue::Null), ("b".into(), b.clone())])]));
+        } }
+        vals.push(RefValue::Arr(vec![])); vals.push(RefValue::Obj(vec![]));
+        let reals: Vec<Value> = vals.iter().map(to_real).collect();
+        for (i, a) in reals.iter().enumerate() { for (j, b) in reals.iter().enumerate() {
+            let c = a.cmp(b);
+            rep.eval(i != j, (i * 100003 + j) as u64);
+            let same = vals[i] == vals[j];
+            if (a == b) != same { rep.violation("Value equality is equality of content (numbers by spelling)", "value-eq", format!("{:?} vs {:?}", vals[i], vals[j]), format!("eq={}", a == b)); }
+            if (c == std::cmp::Ordering::Equal) != (a == b) || b.cmp(a) != c.reverse() || a.partial_cmp(b) != Some(c) { rep.violation("Value order consistent with equality and antisymmetric", "value-order", format!("{:?} vs {:?}", vals[i], vals[j]), format!("cmp={:?} rev={:?} eq={}", c, b.cmp(a), a == b)); }
+            if a == b && hash_of(a) != hash_of(b) { rep.violation("equal values hash alike", "value-hash", format!("{:?} vs {:?}", vals[i], vals[j]), "".into()); }
+            if a.clone() != *a { rep.violation("clones equal their originals", "value-clone", format!("{:?}", vals[i]), "".into()); }
+        } }
+        let step = if thorough { 1 } else { 3 };
+        for a in reals.iter().step_by(step) { for b in reals.iter().step_by(step) { for c in reals.iter().step_by(step) {
+            if a.cmp(b) != std::cmp::Ordering::Greater && b.cmp(c) != std::cmp::Ordering::Greater && a.cmp(c) == std::cmp::Ordering::Greater { rep.violation("Value order transitive", "value-trans", format!("{:?} <= {:?} <= {:?}", from_real(a), from_real(b), from_real(c)), "".into()); }
+        } } }
+    }
     let _ = seed;
     rep.sample("[push a 1, push b 1, push a 2] then insert(a,2) with the iterator dropped untouched".into());
     rep.sample("push_front a, push a, remove_at(0), index_of(a)".into());
